@@ -395,9 +395,9 @@ class Scan(Generic[Carry, Y], GenerativeFunction[tuple[Carry, Y]]):
         carry_out = Diff.tree_primal(carry_retdiff)
         carry_out_ = Diff.tree_primal(retdiff[0])
         carried_out = jtu.tree_map(
-            lambda v, v_: jnp.where(idx < max_length, v_, v),
+            lambda v, v_: jnp.where(idx + 1 < max_length, v_, v),
             carry_out,
-            carry_out_,
+            old_carried_out,
         )
 
         return (
